@@ -817,6 +817,10 @@ def c08(tier):
         # a run in which every file fails, then (more than a second later) an ordinary run: it must do the work
         multi.append([("edit", "op=rename,nth=0:errno=5"), ("sleep", 1.3), ("edit", ""), ("check", "")])
         multi.append([("edit", "op=open,path=.tmp,nth=0:errno=28"), ("sleep", 1.3), ("edit", ""), ("check", "")])
+        # ... and the same with the pause before the failing run (the sources are older than anything the runs write)
+        multi.append([("sleep", 1.3), ("edit", "op=rename,nth=0:errno=5"), ("edit", ""), ("check", "")])
+        multi.append([("sleep", 1.3), ("edit", "op=open,path=.tmp,nth=0:errno=28"), ("sleep", 1.3), ("edit", ""), ("check", "")])
+        multi.append([("sleep", 1.3), ("edit", "op=rename,nth=1:errno=13"), ("sleep", 1.3), ("edit", ""), ("check", "")])
         multi.append([("edit", "op=rename,nth=1:errno=18;op=write,path=.tmp,nth=3:errno=5"), ("check", "")])
         multi.append([("edit", "op=open,path=.tmp,nth=1:errno=13;op=rename,nth=1:errno=5"), ("check", "")])
         rl.planned_runs(binary, sc, multi, batch, v)
